@@ -22,6 +22,11 @@ namespace OP2Utility
 
 	BitmapFile BitmapFile::CreateIndexed(uint16_t bitCount, uint32_t width, int32_t height)
 	{
+		// The image header stores the width as a signed 32 bit value
+		if (width > static_cast<uint32_t>(INT32_MAX)) {
+			throw std::runtime_error("Unable to create bitmap. A width of " + std::to_string(width) + " is too large");
+		}
+
 		BitmapFile bitmapFile;
 		bitmapFile.imageHeader = ImageHeader::Create(width, height, bitCount);
 		bitmapFile.palette.resize(bitmapFile.imageHeader.CalcMaxIndexedPaletteSize());
